@@ -607,7 +607,7 @@ func runC09ClientStream(t *testing.T, rng *rand.Rand, rec *sim.Rec, tier string,
 	if err := cl.Listen(); err != nil {
 		t.Fatal(err)
 	}
-	kind := []string{"garbage", "stun-no-cookie", "valid-then-garbage", "truncated-then-eof", "chan-out-of-range"}[caseNo%5]
+	kind := []string{"garbage", "stun-no-cookie", "valid-then-garbage", "truncated-then-eof", "chan-out-of-range", "chan-max-length", "stun-max-length"}[caseNo%7]
 	var in []byte
 	switch kind {
 	case "garbage":
@@ -627,6 +627,15 @@ func runC09ClientStream(t *testing.T, rng *rand.Rand, rec *sim.Rec, tier string,
 		in = wire.EncodeChannelData(0x4001, make([]byte, 100), true)[:20+rng.Intn(60)]
 	case "chan-out-of-range":
 		in = wire.EncodeChannelData(uint16(0x8000+rng.Intn(0x7FFF)), make([]byte, 32), true)
+	case "chan-max-length":
+		// the largest frames a stream can carry: 4 + 65532..65535 payload bytes (+ padding)
+		in = wire.EncodeChannelData(0x4000, make([]byte, 65532+rng.Intn(4)), true)
+		in = append(in, wire.EncodeChannelData(0x4000, []byte("next"), true)...)
+	case "stun-max-length":
+		in = make([]byte, 20+0xFFFC)
+		binary.BigEndian.PutUint16(in[0:2], 0x0101)
+		binary.BigEndian.PutUint16(in[2:4], 0xFFFC)
+		binary.BigEndian.PutUint32(in[4:8], wire.MagicCookie)
 	}
 	_, _ = srvEnd.Write(in)
 	if kind == "truncated-then-eof" {
